@@ -37,6 +37,14 @@ def fmtTracker (t : Finality.Tracker) (maxSlot : Nat) (blocks : List (Nat × Nat
 
 def fmtAnn (l : List (Nat × (Nat × Nat))) : String := fmtList (l.map (fun a => s!"{a.1}={fmtBlk a.2}"))
 
+/-- wake-ups are observed by polling the receivers in slot order: canonical order = by slot -/
+def sortWakes (l : List (Nat × (Nat × Nat))) : List (Nat × (Nat × Nat)) :=
+  l.foldr (fun x acc =>
+    let rec ins : List (Nat × (Nat × Nat)) → List (Nat × (Nat × Nat))
+      | [] => [x]
+      | y :: ys => if x.1 ≤ y.1 then x :: y :: ys else y :: ins ys
+    ins acc) []
+
 def fmtPState (s : Nat) (st : ParentReady.PState) : String :=
   let b (x : Bool) := if x then "1" else "0"
   s!"{s}:{b st.skip}:{"/".intercalate (st.nfs.map toString)}:{"/".intercalate (st.ready.map (fun r => s!"{r.1}.{r.2}"))}:{b st.waiter}"
@@ -81,7 +89,7 @@ def finStep (st : St) (op : Finality.Op) : St × List String :=
 def prRes (st : St) (r : ParentReady.Res) : St × List String :=
   match r with
   | none => ({ st with pr := none }, ["panic"])
-  | some (t1, ann, wk) => ({ st with pr := some t1 }, [s!"A={fmtAnn ann} W={fmtAnn wk} {fmtPr t1 st.maxSlot}"])
+  | some (t1, ann, wk) => ({ st with pr := some t1 }, [s!"A={fmtAnn ann} W={fmtAnn (sortWakes wk)} {fmtPr t1 st.maxSlot}"])
 
 def parseBlk (s : String) : Option (Nat × Nat) :=
   match s.splitOn ":" with
@@ -103,7 +111,7 @@ def poolOut (st : St) (o : PoolTrack.Out) : St × List String :=
   | .oob => (st, [s!"oob {(st.pool.map (fun p => fmtPool p st.maxSlot)).getD ""}"])
   | .dup p => ({ st with pool := some p }, [s!"dup {fmtPool p st.maxSlot}"])
   | .panic => ({ st with pool := none }, ["panic"])
-  | .ok p ann wk => ({ st with pool := some p }, [s!"ok A={fmtAnn ann} W={fmtAnn wk} {fmtPool p st.maxSlot}"])
+  | .ok p ann wk => ({ st with pool := some p }, [s!"ok A={fmtAnn ann} W={fmtAnn (sortWakes wk)} {fmtPool p st.maxSlot}"])
 
 def step (st : St) (ws : List String) : St × List String :=
   match ws with
